@@ -196,7 +196,7 @@ pub const SUBS: &[Sub] = &[
 pub fn run(ctx: &Ctx) {
     run_regress(ctx, SUBS);
     drive_enum(ctx, &SUBS[0], 8);
-    drive_random(ctx, &SUBS[1], ctx.n(6_000, 300_000), 1400);
+    drive_random(ctx, &SUBS[1], ctx.n(1_500, 300_000), 1400);
     let _ = std::fs::remove_dir_all(verif_root().join("target/c20-tmp"));
 }
 
